@@ -61,10 +61,13 @@ func TestC17(t *testing.T) {
 			for _, mux := range []bool{false, true} {
 				for _, skip := range []bool{false, true} {
 					for _, grp := range []string{"", gid} {
-						for _, ports := range [][2]uint{{0, 0}, {12000, 12999}} {
+						for _, ports := range [][2]uint{{0, 0}, {12000, 12999}, {0, 9000}, {20000, 0}} {
 							for _, sub := range subsets {
-								if tier() == "quick" && len(sub) == 2 && (grp != "" || ports[0] != 0) {
+								if tier() == "quick" && len(sub) == 2 && (grp != "" || ports[0] != 0 || ports[1] != 0) {
 									continue
+								}
+								if (ports[0] == 0) != (ports[1] == 0) && (len(sub) > 0 || grp != "") {
+									continue // one-sided ranges: with an empty ambient environment only
 								}
 								a, an := amb(sub)
 								tls := "none"
